@@ -1644,6 +1644,56 @@ static void header_case(uint64_t seed)
     R.sample("header: " + vf::show(header, 160));
 }
 
+// Directed: baggage whose injected header is exactly at / just below the 8192-byte header limit (from seeded change
+// C15-w5-2).  Built through Set from unreserved characters only (so the header length is known exactly), every member
+// below 4096 bytes: extraction must rebuild the same entries - the limit is "honoured", not tightened on the inject side.
+static void boundary_inject_case(uint64_t seed)
+{
+  auto &R = vf::report();
+  Rng r(seed);
+  size_t total = 8192 - static_cast<size_t>(r.below(3));  // 8192, 8191, 8190
+  size_t n     = static_cast<size_t>(r.range(3, 6));
+  // n members "k<i>=aaaa..." joined by n-1 commas
+  size_t body = total - (n - 1);
+  std::vector<size_t> len(n, body / n);
+  len[0] += body - (body / n) * n;
+  List model;
+  nostd::shared_ptr<baggage::Baggage> b(new baggage::Baggage());
+  for (size_t i = 0; i < n; ++i)
+  {
+    std::string k = "k" + std::to_string(i);
+    std::string v(len[i] - k.size() - 1, static_cast<char>('a' + i));
+    b = b->Set(k, v);
+    model.insert(model.begin(), Entry(k, v));
+  }
+  if (entries(*b) != model)
+    model = entries(*b);  // where Set puts a new member is not stated: follow the baggage
+  int64_t marker       = static_cast<int64_t>(r.next() >> 1);
+  context::Context base = base_context(marker);
+  context::Context ctx  = baggage::SetBaggage(base, b);
+  baggage::propagation::BaggagePropagator prop;
+  Carrier car;
+  prop.Inject(car, ctx);
+  std::string header = car.get("baggage");
+  std::string cls    = "header-" + std::to_string(total) + "-bytes";
+  R.count("boundary_injects");
+  if (header.size() != total)
+  {
+    if (!car.has("baggage") || header.empty())
+      R.violation("roundtrip-result", cls + ":not-injected",
+                  "a Set-built baggage whose header is " + std::to_string(total) + " bytes (limit 8192) was not injected");
+    else
+      R.count("boundary_inject_other_length");  // a different but valid spelling: judged by the extraction below
+  }
+  context::Context out = prop.Extract(car, base);
+  car.kill(r.coin());
+  List got = entries(*baggage::GetBaggage(out));
+  if (got != model)
+    R.violation("roundtrip-result", cls,
+                "baggage of " + std::to_string(n) + " members, injected header " + std::to_string(header.size()) +
+                    " bytes, extracted " + std::to_string(got.size()) + " members");
+}
+
 // ------------------------------------------------------------------------------------------
 // composite propagators: every ordered subset of size <= 4 of the five built-in propagators
 // ------------------------------------------------------------------------------------------
@@ -1905,6 +1955,8 @@ int main(int argc, char **argv)
     program(R.case_seed(i));
     for (uint64_t j = 0; j < headers_per_case; ++j)
       header_case(vf::mix(R.case_seed(i), 1000 + j));
+    if (i % 8 == 0)
+      boundary_inject_case(vf::mix(R.case_seed(i), 31337));
     for (uint64_t j = 0; j < composites_per_case; ++j)
     {
       size_t idx = static_cast<size_t>((i * composites_per_case + j) % nsub);
